@@ -444,29 +444,42 @@ def _loop_always(ctx, f, n, call):
         buf = ast.Name(id=pr[0], ctx=ast.Load()) if len(pr) == 1 else buf
     if not isinstance(buf, ast.Name):
         return g.dominates([head], g.exit, exc=False)
-    xkey = key(buf)
+    return exits_only_if_empty(ctx, f, head, [buf.id])
+
+
+def exits_only_if_empty(ctx, f, head, names):
+    """Every normal path that leaves f without passing `head` (a loop over / a loop writing the sequences `names`) is one on which one of
+    those sequences is empty: the tests on such a path are decided under `len(X) >= 1` for every X in names, with plain counters at their
+    initial (constant or len(X)) values."""
+    import copy as _copy
+    from .c02 import len_cond_eval
+    g = ctx.cfg(f)
+    df = ctx.df(f)
+    xkeys = [key(ast.Name(id=x, ctx=ast.Load())) for x in names]
 
     def subst(node, e):
         e = _copy.deepcopy(e)
 
         class S(ast.NodeTransformer):
             def visit_Name(self, x):
-                if isinstance(x.ctx, ast.Load) and x.id != buf.id:
+                if isinstance(x.ctx, ast.Load) and x.id not in names:
                     d = df.unique_def(node, x.id)
                     if d is not None and d.kind == "assign" and not d.path and d.value is not None:
                         v = unawait(d.value)
                         if isinstance(v, ast.Constant) and isinstance(v.value, int) and not isinstance(v.value, bool):
                             return _copy.deepcopy(v)
-                        if isinstance(v, ast.Call) and isinstance(v.func, ast.Name) and v.func.id == "len" and len(v.args) == 1 and key(v.args[0]) == xkey:
+                        if isinstance(v, ast.Call) and isinstance(v.func, ast.Name) and v.func.id == "len" and len(v.args) == 1 and key(v.args[0]) in xkeys:
                             return _copy.deepcopy(v)
                 return x
         return S().visit(e)
 
     def feasible(s_, d_, l_):
         if s_.kind == "test" and l_ in ("true", "false"):
-            r = len_cond_eval(subst(s_, s_.ast.test), xkey, 1, None)
-            if r is not None and r != (l_ == "true"):
-                return False
+            t = subst(s_, s_.ast.test)
+            for xk in xkeys:
+                r = len_cond_eval(t, xk, 1, None)
+                if r is not None and r != (l_ == "true"):
+                    return False
         return True
     return g.exit not in g.reach([g.entry], avoid=[head], exc=False, edge_filter=feasible, include_start=True)
 
